@@ -69,7 +69,7 @@ Definition prop_ok (c : case) : bool :=
         list_eqb Z.eqb (sort_by (fun z => z) (payloads (nth r got [])))
                        (sort_by (fun z => z) (payloads (nth r lr []) ++ payloads (nth r rr []))))
         (seq 0 (Nat.max (length lr) (length rr)))
-  | CFan l => C03.prop_ok l
+  | CFan l => C03.prop_ok_link l
   end.
 
 Definition known_class (c : case) : N := 0%N.
